@@ -1,8 +1,8 @@
 (** C11 obligation: element data as ET.tostring(tree, method="html") writes it (_serialize_html -> _escape_cdata) contains no raw '<' and no '&' that
     does not start &amp; &lt; &gt; -- for EVERY text; and it is exactly the character-wise escaping. *)
-From OfxV Require Import Base.Prelude Base.Digits Gen.ScalarsGen Model.PyDecimal Model.Scalars Model.ScalarsLex Proofs.ScalarsText Proofs.PyDecimalProofs Proofs.ScalarsProofs Proofs.ScalarsLexProofs.
+From OfxV Require Import Base.Prelude Base.Digits Gen.ScalarsGen Model.PyDecimal Model.Scalars Model.ScalarsLex Proofs.ScalarsText Proofs.PyDecimalProofs Proofs.ScalarsProofs Proofs.ScalarsLexProofs Proofs.ScalarsThms.
 Local Open Scope N_scope.
 
 Theorem closed_wire_data_ok : forall s, wire_data_ok (wire_datum WClosed s) = true /\ wire_datum WClosed s = flat_map esc1 s.
-Proof. intro s. split; [apply wire_datum_ok|apply wire_datum_flat]. Qed.
+Proof. exact closed_wire_data_ok_l. Qed.
 Print Assumptions closed_wire_data_ok.
